@@ -69,10 +69,11 @@ def check_conv(fields, impl):
     lossy, lt = _split(r.get("lossy", ""), ","), _split(r.get("lt", ""), ",")
     back, ll = _split(r.get("back", ""), "&"), _split(r.get("ll", ""), "&")
     et, eb = _split(r.get("et", ""), ","), _split(r.get("eb", ""), "&")
+    el = _split(r.get("el", ""), "&")
     # "".split gives [] but a list of empty hex strings must keep its length
     def fix(l, n): return l if len(l) == n else (l + [""] * n)[:n] if all(x == "" for x in l) else l
     lossy, lt, et = fix(lossy, len(flat)), fix(lt, len(flat)), fix(et, len(rs))
-    if not (len(lossy) == len(lt) == len(back) == len(ll) == len(flat)) or not (len(et) == len(eb) == len(rs)):
+    if not (len(lossy) == len(lt) == len(back) == len(ll) == len(flat)) or not (len(et) == len(eb) == len(el) == len(rs)):
         return [("record", "wrong number of results in the record")]
     out = []
     for i, x in enumerate(flat):
@@ -101,6 +102,19 @@ def check_conv(fields, impl):
             out.append(("econv-text" + tag, "lossless::Entry::from(relations).to_string() is not the alternatives joined by ' | '"))
         if eb[j] != G.entry_s(e):
             out.append(("econv-back" + tag, "Vec<lossy::Relation>::from(Entry::from(relations)) != relations"))
+        if el[j] != G.entry_s(e):
+            out.append(("eread" + tag, "lossless::Entry::from_str of the alternatives' text does not convert back to them"
+                        + (" (rejected)" if el[j] == "ERR" else " (panic)" if el[j] == "PANIC" else "")))
+    if rs and G.relations_valid(rs):
+        if r.get("ft") in BAD[:4] or r.get("fb") in BAD[:4]:
+            out.append(("fconv-panic", "lossless::Relations::from(converted entries) panicked"))
+        else:
+            if r.get("ft") != hexs(", ".join(" | ".join(unhex(t) for t in lossy[sum(len(x) for x in rs[:j]):sum(len(x) for x in rs[:j + 1])]) for j in range(len(rs)))):
+                out.append(("fconv-text", "lossless::Relations::from(converted entries).to_string() is not the lossy text"))
+            if r.get("fb") != G.rels_s(rs):
+                out.append(("fconv-back", "the entries of the converted field do not convert back to the lossy value"))
+        if r.get("fl") != G.rels_s(rs):
+            out.append(("fread", "lossless::Relations::from_str of the lossy text does not convert back to the lossy value"))
     return out
 
 def check_debversion(fields, impl):
@@ -146,8 +160,14 @@ class C14(Prop):
                   'components and non-empty entries (C14_reader_range), so printing it and reading again returns it as soon as the version '
                   'law holds for the versions it contains (C14_relation_reread, C14_relations_reread) — unconditionally for the modelled debversion, '
                   'which reads back whatever it read (C14_debversion_stable, C14_reread_dv: print after read is idempotent on all strings). The unpatched code is kept as RelLossy.old_... and refuted on four '
-                  'witnesses (C14_old_..._refuted). PARTIAL: the conversion clauses (lossy <-> lossless, lossless reader reads the same '
-                  'structure) are stated as C14_conv_full and decided on the implementation by the oracle of the rel-lossy-conv stream only.')
+                  'witnesses (C14_old_..._refuted). Conversion clauses (model RelConv.v: From<lossy::Relation> through cone C11\'s store model of '
+                  'RelationBuilder::build, the way back through cone C10\'s accessor model, Entry and field level): the lossless form prints '
+                  'exactly the lossy text for EVERY lossy value, without panic (C14_conv_text); converting back returns the value for every '
+                  'valid value (C14_conv_back); the lossless reader (Relation/Entry/Relations::from_str, parse_relaxed) reads the printed text '
+                  'as the same structure for the valid values whose printed form is in the Policy grammar of cone C10 (C14_conv_read, '
+                  'C14_conv_partial). PARTIAL: that last clause is not proved for an empty architecture list "[]", an empty profile group '
+                  '"<>" and versions with an empty colon-separated piece ("7:1::2") - C14_conv_full stays a Definition; those are decided by '
+                  'the rel-lossy-conv stream (model and implementation agree, the oracle holds).')
     level_note = ('Model: coq/model/RelLossy.v (reader over RelLex tokens, Display impls, str::split/trim, debversion 0.4.4 parse/print as a '
                   'modelled external). The model is of the PATCHED code; against an unpatched /repo the check reports the defects.')
     rule = ("rel-lossy: hand-picked corners + every combination of {qualifier, 4 version shapes, 6 architecture lists, 8 profile-group shapes} "
@@ -157,14 +177,14 @@ class C14(Prop):
             "after a name over 17 tokens (n=4 quick, 5 thorough), every string <= m over the 21-symbol relation alphabet (m=3/4), every ASCII "
             "character in 15 syntactic positions, every White_Space code point and its neighbours around entries and alternatives (str::trim), printed "
             "values with the layout perturbed (extra blanks, tabs, CR, LF, Unicode spaces, ','-separated profile terms) and mutated; "
-            "rel-lossy-conv: the in-domain values; debversion: every string <= 4/6 over {1,0,a,:,-,.,~,+,SP,U+0663} + generated versions "
+            "rel-lossy-conv: the same kinds of values (in-domain, malformed, big digit runs), about half as many random ones; debversion: every string <= 4/6 over {1,0,a,:,-,.,~,+,SP,U+0663} + generated versions "
             "and their mutations. non-trivial = in-domain value with an optional part (value streams) / text that a reader accepts")
     trusted = ["Coq 8.16.1 kernel (coqc; vm_compute only for the concrete witnesses and examples)",
                "hand-written Coq transcription of debian-control/src/lossy/relations.rs (FromStr for Relation/Relations, Display) and of the small impls of debian-control/src/relations.rs, tied to the code by the rel-lossy and rel-lossy-text correspondence streams on every run",
                "the lexer model RelLex (cone C09) and its totality lemma",
                "std: str::split(char), str::trim (char::is_whitespace = White_Space), Peekable iterator as the list of remaining tokens",
                "debversion 0.4.4 Version::from_str / Display / pub fields modelled in Coq (dv_parse, dv_print; the regex read by hand), validated by the debversion stream (incl. non-ASCII digits, u32 overflow) and a third reading in Python; the general theorems do not depend on it",
-               "the model side of rel-lossy-conv is the SPECIFICATION of the conversion clauses (lossy text / original value), not a transcription",
+               "conversions: coq/model/RelConv.v composes cone C11's model of RelationBuilder::build / Entry::from / Relations::from (RelEdit.v, rowan store model) and cone C10's accessor and reader models (RelAcc.v, RelParse.v); Relation::version is transcribed again with the structured debversion model; tied to the code by the rel-lossy-conv stream (text, way back, reader, at relation / entry / field level, valid and malformed values)",
                "extraction (ExtrOcamlBasic only), OCaml runner, Rust harness, Python driver; the value syntax is implemented three times (OCaml, Rust, Python)"]
     assumptions = ["inputs are valid UTF-8 (Rust &str)",
                    "round trip: component strings valid for their token class (non-empty, identifier characters); every entry has at least one alternative; each version's printed form consists of identifier characters and ':' and is read back as the same version by debversion (proved for the modelled debversion on Policy-canonical versions: ':' only with an epoch, '-' only with a revision, epoch <= u32::MAX)",
